@@ -224,3 +224,17 @@ Proof.
   unfold ws_connect. destruct (ws_dial Https rs 0) as [s|] eqn:E; [|discriminate].
   apply ws_dial_https_stays in E. subst s. cbn. discriminate.
 Qed.
+
+(* authentication data in clear text on a websocket: only when the application allowed it AND no URL
+   of the chain, the configured address included, was a TLS one *)
+Lemma ws_connect_clear_auth insecure addr rs :
+  ws_connect insecure addr rs = WAuth false ->
+  insecure = true /\ addr = Http /\ ~ In Https rs.
+Proof.
+  unfold ws_connect. destruct (ws_dial addr rs 0) as [s|] eqn:E; [|discriminate].
+  destruct s; cbn; [discriminate|].
+  destruct insecure; [|discriminate]. intros _. split; [reflexivity|].
+  split.
+  - destruct addr; [|reflexivity]. apply ws_dial_https_stays in E. discriminate.
+  - intros Hin. assert (Http = Https) by (eapply ws_dial_no_downgrade; [exact E|right; exact Hin]). discriminate.
+Qed.
